@@ -9,7 +9,8 @@
      kind   := "E" | "L" | "U" | "X" | "D" | "FS" opt bool | "FC" opt opt bool
      model  := "S" text | "K" text | "I" zbin | "F" nbin | "C" nbin nbin | "T" text opt | "B" text | "Q" kind count model*
      value  := the same with value children | "pi" zbin | "pf" nbin | "pc" nbin nbin | "ps" text | "pb" text
-             | "pB" bool | "pN" | "pl" count value* | "pt" count value* | "po" nbin
+             | "pB" bool | "pN" | "pl" count value* | "pt" count value* | "pS" count value* (set, iteration order)
+             | "pD" count value* (dict, flattened key value ...) | "po" nbin
      zbin / nbin := binary digits, optional leading "-"
    Output: one line per case, the results in the same notation (see [out_*]). *)
 open Quote_model
@@ -66,6 +67,8 @@ let rec p_value () = match next () with
   | "pB" -> PBool (p_bool ()) | "pN" -> PNone
   | "pl" -> let n = p_int () in PList (many n p_value)
   | "pt" -> let n = p_int () in PTuple (many n p_value)
+  | "pS" -> let n = p_int () in PSet (many n p_value)
+  | "pD" -> let n = p_int () in PDict (many n p_value)
   | "po" -> POpaque (n_of_bin (next ()))
   | t -> failwith ("bad value tag " ^ t)
 
@@ -100,6 +103,8 @@ let rec o_value = function
   | PBool x -> tok "pB"; o_bool x | PNone -> tok "pN"
   | PList items -> tok "pl"; o_int (List.length items); List.iter o_value items
   | PTuple items -> tok "pt"; o_int (List.length items); List.iter o_value items
+  | PSet items -> tok "pS"; o_int (List.length items); List.iter o_value items
+  | PDict items -> tok "pD"; o_int (List.length items); List.iter o_value items
   | POpaque n -> tok "po"; tok (bin_of_n n)
 let o_err = function
   | EUser n -> tok "EUser"; tok (bin_of_n n)
